@@ -73,11 +73,13 @@ def gen_scenarios(rng: Rng, world: dict) -> list[dict]:
             "node_seed": rng.randrange(1 << 30),
             "plan": [],
         }
-        if fixable and rng.chance(0.3):
+        if fixable and rng.chance(0.45):
             v = os.path.splitext(os.path.basename(rng.choice(fixable)))[0]
-            cls = rng.choice(["rename", "write", "create", "chmod"])
-            errno = {"rename": "EACCES", "write": "ENOSPC", "create": "EACCES", "chmod": "EPERM"}[cls]
+            cls = rng.choice(["rename", "write", "create", "chmod", "fsync", "open_r"])
+            errno = {"rename": "EACCES", "write": "ENOSPC", "create": "EACCES", "chmod": "EPERM", "fsync": "EIO", "open_r": "EIO"}[cls]
             sc["plan"] = [{"cls": cls, "path": "/" + v + ".", "nth": 0, "kind": "err", "errno": errno}]
+        # slow-worker fault for the parallel runs: one submission outlasts all others
+        sc["straggler"] = rng.choice([None, None, 0, 1, 3]) if sc["processes"] > 1 else None
         out.append(sc)
     suppressed = [f for f in files if world["meta"][f].get("suppress") not in (None, "none")] or [
         f for f in files if world["meta"][f]["kind"] in ("parse_err", "tmpl_undef")
@@ -231,8 +233,11 @@ def run_one(ctx: Any, seed: int, tier: str, replay: Optional[dict] = None) -> di
                 "lookahead": sc.get("lookahead", 2),
                 "dequeue": sc.get("dequeue", "fifo"),
                 "pool_backend": sc.get("backend", "inproc"),
-                "journal_reads": False,
+                "journal_reads": any(p_.get("cls") == "open_r" for p_ in sc.get("plan") or []),
+                "straggler": sc.get("straggler"),
             }
+            if knobs["journal_reads"]:
+                knobs["worker_plan"] = sc["plan"]  # reads happen in the worker under processes > 1
             n = z.node({"name": "s%d" % si, "root": root, "cwd": world["cwd"], "seed": sc["node_seed"], "knobs": knobs, "tape": sc.get("tape")}, sink=events)
             try:
                 if sc["type"] == "paths":
